@@ -153,7 +153,7 @@ def iterStep (s : Sess) (c : Cmd) (m : Mem) : Sess × String × String :=
           fin { s with zit := (r.2.2.1), mem := (r.2.2.2), sit := (rs.2.2), itChanged := if r.1 == .ok then false else s.itChanged }
             (hOut2 rs.1 rs.2.1) (hOut2 r.1 r.2.1)
         | "add" =>
-          if last == none || s.itChanged then fin1 s "st=- contract" else
+          if last == none then fin1 s "st=- contract" else
           let r := SList.zipAdd l1 l2 z (c.arg 0) (c.arg 1) m
           let sx1 := setM (setM s s.itO (some r.2.1)) s.itO2 (some r.2.2.1)
           let s' := { sx1 with zit := (r.2.2.2.1), mem := (r.2.2.2.2), itChanged := if r.1 == .ok then true else s.itChanged }
@@ -162,7 +162,6 @@ def iterStep (s : Sess) (c : Cmd) (m : Mem) : Sess × String × String :=
           let sx2 := setS (setS s' s.itO (some rs.1)) s.itO2 (some rs.2.1)
           fin { sx2 with sit := (rs.2.2) } (fmtStat .ok) (fmtStat r.1)
         | "remove" =>
-          if last != none && s.itChanged then fin1 s "st=- contract" else
           let r := SList.zipRemove l1 l2 z m
           let rs := LSeq.zitRemove a1 a2 s.sit
           let sx3 := setM (setM s s.itO (some r.2.2.1)) s.itO2 (some r.2.2.2.1)
@@ -189,7 +188,7 @@ def iterStep (s : Sess) (c : Cmd) (m : Mem) : Sess × String × String :=
           fin { s with it := (r.2.2.1), mem := (r.2.2.2), sit := (rs.2.2), itChanged := if r.1 == .ok then false else s.itChanged }
             (hOut rs.1 rs.2.1) (hOut r.1 r.2.1)
         | "add" =>
-          if it.current == none || s.itChanged then fin1 s "st=- contract" else
+          if it.current == none then fin1 s "st=- contract" else
           let r := SList.iterAdd l it (c.arg 0) m
           let sx6 := setM s s.itO (some r.2.1)
           let s' := { sx6 with it := (r.2.2.1), mem := (r.2.2.2), itChanged := if r.1 == .ok then true else s.itChanged }
@@ -198,7 +197,6 @@ def iterStep (s : Sess) (c : Cmd) (m : Mem) : Sess × String × String :=
           let sx7 := setS s' s.itO (some rs.1)
           fin { sx7 with sit := rs.2 } (fmtStat .ok) (fmtStat r.1)
         | "remove" =>
-          if it.current != none && s.itChanged then fin1 s "st=- contract" else
           let r := SList.iterRemove l it m
           let rs := LSeq.itRemove a s.sit
           let sx8 := setM s s.itO (some r.2.2.1)
@@ -353,7 +351,7 @@ def stepCore (s : Sess) (c : Cmd) : Sess × String × String :=
 /-! ### the pointer-level model alongside -/
 
 def plUnsupported : List String :=
-  ["sort", "filter_mut", "mk_sub", "mk_copy_shallow", "mk_copy_deep", "mk_filter",
+  ["sort", "mk_sub", "mk_copy_shallow", "mk_copy_deep", "mk_filter",
    "it_add", "it_remove", "it_replace", "zit_add", "zit_remove", "zit_replace"]
 
 /-- rebuild the pointer-level state from the sequence-level one (fresh nodes, linked canonically) -/
@@ -427,6 +425,7 @@ def plStep (old s : Sess) (c : Cmd) : Sess :=
       let r := PSList.replaceAt s.pst h v idx m
       chk (setP s k r.2.2.1 (some r.2.2.2.1)) r.2.2.2.2
     | "reverse" => let r := PSList.reverse s.pst h; setP s k r.1 (some r.2)
+    | "filter_mut" => let r := PSList.filterMut LSeq.predEven s.pst h m; chk (setP s k r.2.1 (some r.2.2.1)) r.2.2.2
     | _ => s
   | _, _ => s
 
